@@ -39,6 +39,7 @@ package diagnostics
 // Gate of the pipeline: an entity (or a direct child entity) carrying a diagnostic of a requested severity
 // makes the result non-empty.
 //@ func GetDiagnosticsWithSeverity props C10,C18,C14
+//@ emits severityFiltered(len(result) > 0, exists(s, 0, len(severities), severities[s] == DiagnosticError))
 //@ ensures top: forall(i, 0, len(diags), sevImplies(diags[i], severities, len(result) > 0))
 //@ ensures child: forall(i, 0, len(diags), forall(c, 0, len(diags[i].Children), implies(diags[i].Children[c] != nil, sevImplies(*diags[i].Children[c], severities, len(result) > 0))))
 //@ ensures fresh(result)
